@@ -157,7 +157,7 @@ def translator_selftest(ctx):
 def jobs(tier, seed):
     out = []
     quick = tier == "quick"
-    L = 5 if quick else 7
+    L = 6 if quick else 8
     for pat in PATTERNS:
         for cname in (["core", "small"] if quick else ["core", "small", "mixed"]):
             out.append(dict(case="regex", params=dict(pattern=pat, charset=cname, L=L), budget=dict(formula_ms=120000 if quick else 600000), timeout=900))
@@ -182,7 +182,7 @@ INFO = dict(
                "sequence/regex theory, the unrolling encoder. The translator is validated per run against re.fullmatch on solver-generated strings.",
     design_ref="DESIGN.md section 3 C18",
     explanation="Automaton from the real regex compiler unrolled for a symbolic z3 string vs. an independent z3 regex; unsat = equal on all strings up to L over the charset.",
-    bounds=dict(quick=dict(L=5, patterns=len(PATTERNS), charsets=["core", "small"]), thorough=dict(L=7, patterns=len(PATTERNS), charsets=["core", "small", "mixed"])),
+    bounds=dict(quick=dict(L=6, patterns=len(PATTERNS), charsets=["core", "small"]), thorough=dict(L=8, patterns=len(PATTERNS), charsets=["core", "small", "mixed"])),
     outside=["strings longer than L", "patterns outside the catalogue", "regex features interegular does not support (look-around, back-references)"],
     assumptions=["CPython re.fullmatch is the reference semantics"],
 )
